@@ -118,6 +118,7 @@ inductive OpKind
   | createIndex | dropIndex
   | addUq | dropUq
   | addFk | dropFk
+  | tableComment          -- create_table_comment / drop_table_comment: alters the table
   deriving DecidableEq, Repr, Inhabited
 
 /-- one generated operation, reduced to its *target*: the object it names -/
@@ -133,11 +134,11 @@ def Op.key (o : Op) : Key := (o.schema, o.table)
 
 /-- drop / alter operations: the ones that touch an object of the database -/
 def OpKind.touchesDb : OpKind → Bool
-  | .dropTable | .dropColumn | .alterColumn | .dropIndex | .dropUq | .dropFk => true
+  | .dropTable | .dropColumn | .alterColumn | .dropIndex | .dropUq | .dropFk | .tableComment => true
   | _ => false
 
 def OpKind.targetTy : OpKind → Ty
-  | .createTable | .dropTable => .table
+  | .createTable | .dropTable | .tableComment => .table
   | .addColumn | .dropColumn | .alterColumn => .column
   | .createIndex | .dropIndex => .index
   | .addUq | .dropUq => .uniqueConstraint
